@@ -885,6 +885,25 @@ func TestVerifC19Rules(t *testing.T) {
 		}
 	}
 
+	// a rule id that occurs twice (C06-F6: rejected as a whole since 5e2c60e), also behind a rule that cannot be created
+	for _, d := range []struct {
+		base int
+		mut  func(tree any) any
+	}{
+		{2, func(t any) any { return c19Edit(t, []any{"rules", 0}, 1) }},
+		{1, func(t any) any { return c19Set(t, []any{"rules", 1, "id"}, "a") }},
+		{1, func(t any) any {
+			return c19Set(c19Set(t, []any{"rules", 1, "id"}, "a"), []any{"rules", 0, "execute", 0, "authenticator"}, "nope")
+		}},
+		{1, func(t any) any {
+			return c19Set(c19Set(t, []any{"rules", 1, "id"}, "a"), []any{"rules", 1, "execute", 0, "authenticator"}, "nope")
+		}},
+	} {
+		if text, ok := c19Marshal(d.mut(c19Clone(bases[d.base]))); ok {
+			add(d.base, "witness duplicate rule id", text)
+		}
+	}
+
 	for _, wit := range []struct { // C19-F9 and its neighbours
 		p []any
 		v any
@@ -1184,7 +1203,7 @@ func TestVerifC19Rules(t *testing.T) {
 				// the oracle calls work on a deep copy: createMethodMatcher sorts and compacts its argument in place
 				rc := c19CopyRule(rs.Rules[k])
 				hash, _ := rc.Hash()
-				items[k] = vf.CoqApp("rl", vf.CoqStr(c19RuleKey(rc.ID, hash)), c19Steps(env.hf, rc.Execute, false), c19Steps(env.hf, rc.ErrorHandler, true),
+				items[k] = vf.CoqApp("rl", vf.CoqStr(rc.ID), vf.CoqStr(c19RuleKey(rc.ID, hash)), c19Steps(env.hf, rc.Execute, false), c19Steps(env.hf, rc.ErrorHandler, true),
 					vf.CoqBool(rc.Backend != nil), c19Rest(rc))
 			}
 
